@@ -2,6 +2,4 @@ package main
 
 import "github.com/metal-toolbox/audito-maldito/verif/vlib"
 
-func daemonCorrelation(r *vlib.Run, class string) {}
-
 func c16Realtime(r *vlib.Run) {}
